@@ -61,6 +61,7 @@ def parseReq (j : Json) : R Req := do
     return .rw true m p (← parseEntry e)
   | [.str "activate", s] => return .activate (← parseScope s)
   | [.str "deactivate", s] => return .deactivate (← parseScope s)
+  | [.str "bad", a, s] => return .malformed (← a.getStr?).toList (← s.getStr?).toList
   | [.str "ident"] => return .ident
   | [.str "disconnect"] => return .disconnect
   | _ => throw s!"bad request {j.compress}"
@@ -71,6 +72,7 @@ def reqJson : Req → Json
   | .ident => jarr [Json.str "ident"]
   | .disconnect => jarr [Json.str "disconnect"]
   | .rw w m p e => jarr [Json.str (if w then "change" else "read"), nameJson (pkey m p), entryJson e]
+  | .malformed a s => jarr [Json.str "bad", nameJson a, nameJson s]
 
 def parseObs (j : Json) : R Obs := do
   match (← arr j) with
